@@ -217,14 +217,14 @@ type violation struct {
 }
 
 type violationMsg struct {
-	Type   string          `json:"type"`
-	Worker int             `json:"worker"`
-	Run    int             `json:"run"`
-	Seed   uint64          `json:"seed"`
-	BaseSeed uint64        `json:"base_seed"`
-	Cold   bool            `json:"cold"`
-	V      violation       `json:"violation"`
-	File   json.RawMessage `json:"file"`
+	Type     string          `json:"type"`
+	Worker   int             `json:"worker"`
+	Run      int             `json:"run"`
+	Seed     uint64          `json:"seed"`
+	BaseSeed uint64          `json:"base_seed"`
+	Cold     bool            `json:"cold"`
+	V        violation       `json:"violation"`
+	File     json.RawMessage `json:"file"`
 }
 
 type workerOut struct {
@@ -782,42 +782,42 @@ func runProperty(prop, tier string, seed uint64) int {
 		simWall = 1
 	}
 	faults := map[string]int64{
-		"pool_miss_forced":       int64(agg["sim.PoolMissForced"]),
-		"pool_miss_empty":        int64(agg["sim.PoolMissEmpty"]),
-		"pool_put_dropped":       int64(agg["sim.PoolDrops"]),
-		"pool_cleared":           int64(agg["sim.PoolClears"]),
-		"pool_non_lifo_reuse":    int64(agg["sim.PoolNonLIFO"]),
-		"preempt_inside_library": int64(agg["sim.PreemptInLib"]),
-		"switch_at_sync_or_op_boundary": int64(agg["sim.Switches"] - agg["sim.PreemptInLib"]),
-		"rejected_set":           int64(agg["probes.SetFail"]),
-		"rejected_parse":         int64(agg["probes.ParseFail"]),
+		"pool_miss_forced":                  int64(agg["sim.PoolMissForced"]),
+		"pool_miss_empty":                   int64(agg["sim.PoolMissEmpty"]),
+		"pool_put_dropped":                  int64(agg["sim.PoolDrops"]),
+		"pool_cleared":                      int64(agg["sim.PoolClears"]),
+		"pool_non_lifo_reuse":               int64(agg["sim.PoolNonLIFO"]),
+		"preempt_inside_library":            int64(agg["sim.PreemptInLib"]),
+		"switch_at_sync_or_op_boundary":     int64(agg["sim.Switches"] - agg["sim.PreemptInLib"]),
+		"rejected_set":                      int64(agg["probes.SetFail"]),
+		"rejected_parse":                    int64(agg["probes.ParseFail"]),
 		"shared_object_write_protected_use": int64(agg["probes.SharedROUse"]),
 	}
 	probes := map[string]int64{
-		"stale_longer_hit":        int64(agg["probes.StaleLongerHit"]),
-		"stale_hit":               int64(agg["sim.PoolStaleHits"]),
-		"overlap_in_parse":        int64(agg["sim.PoolOverlap"]),
-		"miss_during_overlap":     int64(agg["sim.PoolMissOverlap"]),
-		"alias_hit":               int64(agg["sim.PoolAliasHits"]),
-		"preempt_inside_library":  int64(agg["sim.PreemptInLib"]),
-		"shared_ro_unordered_use": int64(agg["probes.SharedROUse"]),
-		"locked_shared_use":       int64(agg["probes.LockedUse"]),
-		"frame_checks":            int64(agg["probes.FrameChecks"]),
-		"o1_keys_compared":        int64(agg["o1_compared"]),
-		"o1_calm_replays":         int64(agg["o1_calm"]),
-		"o1_distinct_keys":        int64(agg["o1_distinct_keys"]),
-		"o1x_fresh_process_compares": int64(agg["ref_compared"]),
-		"model_checks":            int64(agg["probes.ModelChecks"]),
-		"successful_sets":         int64(agg["probes.SetOK"]),
-		"failed_sets":             int64(agg["probes.SetFail"]),
-		"round_trips":             int64(agg["probes.RoundTrips"]),
-		"well_formed_checks":      int64(agg["probes.WellFormedChecks"]),
-		"equality_table_compares": int64(agg["eq_compared"]),
+		"stale_longer_hit":            int64(agg["probes.StaleLongerHit"]),
+		"stale_hit":                   int64(agg["sim.PoolStaleHits"]),
+		"overlap_in_parse":            int64(agg["sim.PoolOverlap"]),
+		"miss_during_overlap":         int64(agg["sim.PoolMissOverlap"]),
+		"alias_hit":                   int64(agg["sim.PoolAliasHits"]),
+		"preempt_inside_library":      int64(agg["sim.PreemptInLib"]),
+		"shared_ro_unordered_use":     int64(agg["probes.SharedROUse"]),
+		"locked_shared_use":           int64(agg["probes.LockedUse"]),
+		"frame_checks":                int64(agg["probes.FrameChecks"]),
+		"o1_keys_compared":            int64(agg["o1_compared"]),
+		"o1_calm_replays":             int64(agg["o1_calm"]),
+		"o1_distinct_keys":            int64(agg["o1_distinct_keys"]),
+		"o1x_fresh_process_compares":  int64(agg["ref_compared"]),
+		"model_checks":                int64(agg["probes.ModelChecks"]),
+		"successful_sets":             int64(agg["probes.SetOK"]),
+		"failed_sets":                 int64(agg["probes.SetFail"]),
+		"round_trips":                 int64(agg["probes.RoundTrips"]),
+		"well_formed_checks":          int64(agg["probes.WellFormedChecks"]),
+		"equality_table_compares":     int64(agg["eq_compared"]),
 		"set_neighbour_pairs_covered": int64(len(pairs)),
 		"set_neighbour_pairs_total":   int64(pairsTotal),
-		"library_panics_observed": int64(agg["probes.Panics"]),
-		"lock_blocks":             int64(agg["sim.LockBlocks"]),
-		"race_reports":            int64(agg["race_errors"]),
+		"library_panics_observed":     int64(agg["probes.Panics"]),
+		"lock_blocks":                 int64(agg["sim.LockBlocks"]),
+		"race_reports":                int64(agg["race_errors"]),
 	}
 	rule := map[string]string{
 		"C14": "runs are generated from (VERIF_SEED, worker, index): 1-8 caller tasks, private / lock-protected / shared read-only objects of all four versions, all exported functions, the v2 scratch pool under seeded miss/drop/clear/reuse-order faults, seeded switches at operation boundaries, simulated sync operations and statement-level preemption points. A run counts as non-trivial if at least one of: a pooled buffer with more stale slots than the current vector has parts was reused, two tasks were between Get and Put of the pool at the same time, a preemption fired inside a library call, or several tasks used a shared read-only object without ordering. distinct = distinct hash over (every scheduling and pool decision, every sync event, every operation result) among the non-trivial runs (sets capped at 2^20 per worker: a lower bound).",
@@ -833,41 +833,41 @@ func runProperty(prop, tier string, seed uint64) int {
 		"wall_s":      wall,
 		"violations":  nViolations,
 		"coverage": map[string]any{
-			"evaluations":         int64(totalRuns),
-			"distinct_nontrivial": int64(len(distinct)),
-			"rule":                rule,
-			"samples":             samples,
-			"operations_executed": int64(totalOps),
-			"nontrivial_runs":     int64(nonTrivial),
-			"runs_per_hour":       int64(totalRuns / simWall * 3600),
-			"seeds_per_hour":      int64(totalRuns / simWall * 3600),
-			"simulated_time":      "none: the system has no clock; logical steps are reported instead",
-			"scheduling_points":   int64(agg["sim.SchedPoints"]),
-			"preemption_points_executed": int64(agg["sim.Points"]),
-			"task_switches":       int64(agg["sim.Switches"]),
-			"faults_fired":        faults,
-			"probes":              probes,
-			"distinct_interleavings": int64(len(sigs)),
-			"distinct_interleavings_measure": "hash of the per-run order of (task, sync/preemption event, object); capped at 2^20 per worker",
-			"preemption_points_in_library": builds[0].Instr.Points,
-			"preemption_points_reached":    len(pointsHit),
-			"preemption_points_reached_note": "sampled: collected on every 8th run",
+			"evaluations":                     int64(totalRuns),
+			"distinct_nontrivial":             int64(len(distinct)),
+			"rule":                            rule,
+			"samples":                         samples,
+			"operations_executed":             int64(totalOps),
+			"nontrivial_runs":                 int64(nonTrivial),
+			"runs_per_hour":                   int64(totalRuns / simWall * 3600),
+			"seeds_per_hour":                  int64(totalRuns / simWall * 3600),
+			"simulated_time":                  "none: the system has no clock; logical steps are reported instead",
+			"scheduling_points":               int64(agg["sim.SchedPoints"]),
+			"preemption_points_executed":      int64(agg["sim.Points"]),
+			"task_switches":                   int64(agg["sim.Switches"]),
+			"faults_fired":                    faults,
+			"probes":                          probes,
+			"distinct_interleavings":          int64(len(sigs)),
+			"distinct_interleavings_measure":  "hash of the per-run order of (task, sync/preemption event, object); capped at 2^20 per worker",
+			"preemption_points_in_library":    builds[0].Instr.Points,
+			"preemption_points_reached":       len(pointsHit),
+			"preemption_points_reached_note":  "sampled: collected on every 8th run",
 			"distinct_preemption_sites_fired": len(preSites),
-			"policies":            policies,
-			"tasks_per_run":       taskHist,
-			"aborted_runs":        aborts,
-			"determinism_selftest": det,
-			"workers":             nW,
-			"worker_processes":    processes,
-			"cold_start_processes": coldProcesses,
-			"cold_start_runs":     int64(coldRuns),
-			"toolchains":          toolchainList(builds),
-			"repo_head":           builds[0].Head,
-			"repo_dirty":          builds[0].Dirty,
-			"instrumented_src_sha256": builds[0].Instr.SrcHash,
+			"policies":                        policies,
+			"tasks_per_run":                   taskHist,
+			"aborted_runs":                    aborts,
+			"determinism_selftest":            det,
+			"workers":                         nW,
+			"worker_processes":                processes,
+			"cold_start_processes":            coldProcesses,
+			"cold_start_runs":                 int64(coldRuns),
+			"toolchains":                      toolchainList(builds),
+			"repo_head":                       builds[0].Head,
+			"repo_dirty":                      builds[0].Dirty,
+			"instrumented_src_sha256":         builds[0].Instr.SrcHash,
 			"components": map[string]string{
-				"real": "every line of packages 20/30/31/40 of /repo's working tree (instrumented copy: import path of sync swapped, a point call before every statement), fmt, strings, math, the Go allocator and GC",
-				"stub": "package sync (Pool, Mutex, RWMutex, Once, Map, WaitGroup), package sync/atomic (real operations behind a scheduling point) and the choice of which caller goroutine runs",
+				"real":         "every line of packages 20/30/31/40 of /repo's working tree (instrumented copy: import path of sync swapped, a point call before every statement), fmt, strings, math, the Go allocator and GC",
+				"stub":         "package sync (Pool, Mutex, RWMutex, Once, Map, WaitGroup), package sync/atomic (real operations behind a scheduling point) and the choice of which caller goroutine runs",
 				"not_modelled": "the real sync.Pool implementation (trusted to meet its documented contract)",
 			},
 			"race_monitor": race,
